@@ -186,7 +186,7 @@ def plan_l2(tier, baseline=None):
                 name, code, ", ".join(OPCLASS[o] for o in ops), sh,
                 "Implemented" if base_impl else "Rejected", family(t["mnemonic"]), t["mnemonic"].lower(), "true" if bounded else "false")
             harnesses.append(dict(name=name, code=code, shape=tag, mnemonic=t["mnemonic"], decl=decl,
-                                  bound=("values: GPRs sign-extended 4-bit, memory fill 0x00|0xFF (all registers / memory shapes)" if bounded else
+                                  bound=("values: GPRs sign-extended 4-bit (DIV/IDIV: RAX/RDX also MIN/MAX corners of 8/16/32/64 bits), memory fill 0x00|0xFF (all registers / memory shapes)" if bounded else
                                          ("registers fixed to xCX (r/m) and xBX (reg), all values" if sh == "RegFixed" else None)),
                                   expect="implemented" if base_impl else "rejected", family=family(t["mnemonic"]),
                                   file=mnemonic_file(t["mnemonic"]), fn=(r or {}).get("fn"), now_implemented=now_impl,
@@ -653,7 +653,7 @@ STK_HARNESSES = [
     ("stk_start_a0_e0", "check_start(0, 0, [0, 0, 0], 1 << 48)", 10),
     ("stk_start_a1_e0_l9", "check_start(1, 0, [9, 0, 0], 0xfff)", 10),
     ("stk_start_a1_e1_l20", "check_start(1, 1, [2, 0, 0], 0xfff)", 10),
-    ("stk_start_a2_e0_l12", "check_start(2, 0, [1, 2, 0], 0xfff)", 10),
+    ("stk_start_a2_e0_l11", "check_start(2, 0, [1, 1, 0], 0xfff)", 10),  # equal lengths: the two arguments may be identical
     ("stk_start_a2_e1_l012", "check_start(2, 1, [0, 1, 2], 0xfff)", 10),
     ("stk_plain", "check_plain()", 10),
 ]
@@ -712,6 +712,100 @@ def build_stk(dst, harnesses):
            "pub mod harness { pub mod stk; #[cfg(kani)] pub mod gen_stk; }\n"]
     write(os.path.join(src, "lib.rs"), "".join(lib))
     write(os.path.join(dst, "Cargo.toml"), CARGO_TOML.format(name="axstk"))
+    write(os.path.join(dst, ".cargo/config.toml"), "[net]\noffline = true\n")
+    write(os.path.join(dst, "build.rs"), "fn main() {\n    println!(\"cargo:rustc-cfg=ax_verif\");\n    println!(\"cargo:rustc-check-cfg=cfg(ax_verif)\");\n}\n")
+    shutil.copyfile(os.path.join(X.REPO, "Cargo.lock"), os.path.join(dst, "Cargo.lock"))
+    return extracted
+
+
+# ------------------------------------------------------------------------------------------------ ELF loader crate (C15 / C16)
+ELF_HARNESSES = [
+    # (name, call, unwind): concrete file range (offset, filesz) of the segment in an 8-byte file
+    ("elf_seg_empty", "check_segment(0, 0)", 6),
+    ("elf_seg_o2_f3", "check_segment(2, 3)", 6),
+    ("elf_seg_o0_f4", "check_segment(0, 4)", 6),
+    ("elf_seg_outside", "check_segment(6, 3)", 6),
+    ("elf_seg_overflow", "check_segment(0xffff_ffff_ffff_fff0, 0x20)", 6),
+    ("elf_flags", "check_flags()", 2),
+]
+ELF_LOOP = r"for segment in segments \{"
+
+
+def elf_texts():
+    out = {}
+    mac = X.whole_file("src/helpers/macros.rs")
+    out["helpers/macros.rs"] = ("src/helpers/macros.rs", X.select_items(mac, lambda h: re.match(r"\s*(macro_rules!|pub\(crate\) use|pub\(crate\) const)", h.strip()) is not None))
+    mem = X.whole_file("src/state/memory.rs")
+    out["state/memory.rs"] = ("src/state/memory.rs", X.select_items(mem, lambda h: re.search(r"pub const PROT_", h) is not None))
+    el = X.whole_file("src/elf/elf.rs")
+    # the loop body of from_binary
+    m = re.search(r"pub fn from_binary\(", el)
+    if not m:
+        raise SystemExit("lost anchor: from_binary not found in src/elf/elf.rs")
+    fend = X.match_brace(el, el.index("{", m.end()))
+    ftxt = el[m.start():fend + 1]
+    ms = list(re.finditer(ELF_LOOP, ftxt))
+    if len(ms) != 1:
+        raise SystemExit("lost anchor: segment loop of from_binary (%d matches)" % len(ms))
+    b0 = ms[0].end() - 1
+    b1 = X.match_brace(ftxt, b0)
+    body = ftxt[b0 + 1:b1]
+    line = el[:m.start()].count("\n") + ftxt[:b0].count("\n") + 1
+    # top-level items other than `impl Axecutor` blocks are kept as they are (From impls, elf_flags_to_prot, round_up_to_page_size)
+    keep = X.select_items(el, lambda h: not re.match(r"\s*(#\[[^\]]*\]\s*)*impl Axecutor\b", h.strip()) and "extern crate" not in h and "wasm_bindgen" not in h and "TraceEntry" not in h and "SupportedRegister" not in h)
+    gen = keep + """
+// E10: the body of `for segment in segments { .. }` of Axecutor::from_binary (src/elf/elf.rs line %d) as one function = one
+// loop iteration; `continue` ends the iteration (single-trip loop), `return` / `?` leave from_binary with the error
+impl Axecutor {
+    pub(crate) fn load_segment_body(axecutor: &mut Axecutor, file: &crate::axecutor::ElfFile, segment: elf::segment::ProgramHeader) -> Result<(), AxError> {
+        for _ax_verif_once in 0..1 {
+%s
+        }
+        Ok(())
+    }
+}
+pub fn verif_elf_flags_to_prot(f: u32) -> u32 {
+    elf_flags_to_prot(f)
+}
+""" % (line, body)
+    out["elf/elf.rs"] = ("src/elf/elf.rs", gen)
+    return out
+
+
+def plan_elf():
+    return [dict(name=n, decl="#[kani::proof]\n#[kani::unwind(%d)]\nfn %s() {\n    crate::harness::elfh::%s\n}\n" % (u, n, c), fns=["from_binary (segment loop body)", "elf_flags_to_prot", "round_up_to_page_size"])
+            for (n, c, u) in ELF_HARNESSES]
+
+
+def elf_hash():
+    parts = [t for (_r, t) in elf_texts().values()]
+    for rel in ["model/errors.rs", "model/debug.rs", "model/verif_hooks.rs", "model/elf/axecutor.rs", "harness/elfh.rs"]:
+        parts.append(open(os.path.join(KANI, rel)).read())
+    parts.append(CRATE_LAYOUT_VERSION)
+    return X.sha(*parts)
+
+
+def build_elf(dst, harnesses):
+    if os.path.exists(dst):
+        shutil.rmtree(dst)
+    src = os.path.join(dst, "src")
+    extracted = {}
+    for rel_dst, (rel_repo, t) in elf_texts().items():
+        write(os.path.join(src, rel_dst), t)
+        extracted[rel_dst] = dict(repo=rel_repo, sha256=X.sha(t), lines=t.count("\n") + 1)
+    for a, b in [("model/errors.rs", "helpers/errors.rs"), ("model/debug.rs", "helpers/debug.rs"), ("model/verif_hooks.rs", "verif_hooks.rs"),
+                 ("model/elf/axecutor.rs", "axecutor.rs"), ("harness/elfh.rs", "harness/elfh.rs")]:
+        copy(os.path.join(KANI, a), os.path.join(src, b))
+    write(os.path.join(src, "harness/gen_elf.rs"), "".join(h["decl"] for h in harnesses))
+    lib = ["#![allow(warnings)]\n", FORMAT_SHADOW,
+           "pub mod verif_hooks;\n",
+           "pub mod helpers { pub mod debug; pub mod errors; pub mod macros; }\n",
+           "pub mod state { pub mod memory; }\n",
+           "pub mod elf { pub mod elf; }\n",
+           "pub mod axecutor;\n",
+           "pub mod harness { pub mod elfh; #[cfg(kani)] pub mod gen_elf; }\n"]
+    write(os.path.join(src, "lib.rs"), "".join(lib))
+    write(os.path.join(dst, "Cargo.toml"), CARGO_TOML.format(name="axelf").replace("[lints.rust]", "elf = \"=0.7.4\"\n\n[lints.rust]"))
     write(os.path.join(dst, ".cargo/config.toml"), "[net]\noffline = true\n")
     write(os.path.join(dst, "build.rs"), "fn main() {\n    println!(\"cargo:rustc-cfg=ax_verif\");\n    println!(\"cargo:rustc-check-cfg=cfg(ax_verif)\");\n}\n")
     shutil.copyfile(os.path.join(X.REPO, "Cargo.lock"), os.path.join(dst, "Cargo.lock"))
